@@ -89,10 +89,18 @@ def run_property(prop_id, tier='quick', seed=0, repo=None, config='default', qui
         msg = str(e)
         ctx.obs.append(dict(rule='ANCHOR', key=re.sub(r'[^A-Za-z0-9_.:|<>= -]+', '_', msg)[:120], ok=False,
                             what=f'enforcing construct not found: {msg}', site=None, detail=None))
-    except Exception:
-        traceback.print_exc()
-        print(f'FAIL-CLOSED property={prop_id}: internal error in rule module', flush=True)
-        return 2, None
+    except Exception as e:   # an inspected construct has an unexpected shape (e.g. a required call is gone and indexing fails)
+        if anchors_fail_closed:
+            return 2, None
+        tb = traceback.format_exc()
+        if not silent:
+            sys.stderr.write(tb)
+        last = [l for l in tb.splitlines() if 'rules/props' in l][-1:] or ['?']
+        where = re.sub(r'.*rules/props/', '', last[0]).strip()
+        ctx.rules.setdefault('ANCHOR', 'every construct a rule of this property is anchored in exists (function, required call, inspected match)')
+        ctx.obs.append(dict(rule='ANCHOR', key=f'rule evaluation aborted|{type(e).__name__}|{where.split(",")[0]}', ok=False,
+                            what=f'a construct inspected by the rules has an unexpected shape ({type(e).__name__}: {e}) at {where}', site=None,
+                            detail=dict(traceback=tb[-1500:])))
 
     known = [k for k in load_known() if k['property'] == prop_id and k.get('status') == 'known']
     known_keys = {(k['rule'], k['key']): k for k in known}
